@@ -400,6 +400,25 @@ impl FatVolume {
         }
     }
 
+    /// How many of the slots of `block_idx` belong to the directory: all of
+    /// them, except in the last block of a FAT16 root directory whose entry
+    /// count is not a multiple of 16.
+    fn fat16_slots_in_block(
+        root_entries_count: u16,
+        dir: ClusterId,
+        first_block: BlockIdx,
+        block_idx: BlockIdx,
+    ) -> usize {
+        const PER_BLOCK: u32 = Block::LEN_U32 / OnDiskDirEntry::LEN_U32;
+        if dir != ClusterId::ROOT_DIR {
+            return PER_BLOCK as usize;
+        }
+        let before = (block_idx.0 - first_block.0) * PER_BLOCK;
+        u32::from(root_entries_count)
+            .saturating_sub(before)
+            .min(PER_BLOCK) as usize
+    }
+
     /// Finds a empty entry space and writes the new entry to it, allocates a new cluster if it's
     /// needed
     pub(crate) fn write_new_directory_entry<D, T>(
@@ -421,6 +440,7 @@ impl FatVolume {
                 // a specially reserved space on disk (see
                 // `first_root_dir_block`). Other directories can have any size
                 // as they are made of regular clusters.
+                let root_entries_count = fat16_info.root_entries_count;
                 let mut current_cluster = Some(dir_cluster);
                 let mut first_dir_block_num = match dir_cluster {
                     ClusterId::ROOT_DIR => self.lba_start + fat16_info.first_root_dir_block,
@@ -442,8 +462,16 @@ impl FatVolume {
                         let block = block_cache
                             .read_mut(block_idx)
                             .map_err(Error::DeviceError)?;
-                        for (i, dir_entry_bytes) in
-                            block.chunks_exact_mut(OnDiskDirEntry::LEN).enumerate()
+                        let slots = Self::fat16_slots_in_block(
+                            root_entries_count,
+                            dir_cluster,
+                            first_dir_block_num,
+                            block_idx,
+                        );
+                        for (i, dir_entry_bytes) in block
+                            .chunks_exact_mut(OnDiskDirEntry::LEN)
+                            .enumerate()
+                            .take(slots)
                         {
                             let dir_entry = OnDiskDirEntry::new(dir_entry_bytes);
                             // 0x00 or 0xE5 represents a free entry
@@ -757,7 +785,17 @@ impl FatVolume {
             for block_idx in first_dir_block_num.range(dir_size) {
                 trace!("Reading FAT");
                 let block = block_cache.read(block_idx)?;
-                for (i, dir_entry_bytes) in block.chunks_exact(OnDiskDirEntry::LEN).enumerate() {
+                let slots = Self::fat16_slots_in_block(
+                    fat16_info.root_entries_count,
+                    dir_info.cluster,
+                    first_dir_block_num,
+                    block_idx,
+                );
+                for (i, dir_entry_bytes) in block
+                    .chunks_exact(OnDiskDirEntry::LEN)
+                    .enumerate()
+                    .take(slots)
+                {
                     let dir_entry = OnDiskDirEntry::new(dir_entry_bytes);
                     if dir_entry.is_end() {
                         // Can quit early
@@ -871,6 +909,12 @@ impl FatVolume {
                             FatType::Fat16,
                             match_name,
                             block,
+                            Self::fat16_slots_in_block(
+                                fat16_info.root_entries_count,
+                                dir_info.cluster,
+                                first_dir_block_num,
+                                block,
+                            ),
                         ) {
                             Err(Error::NotFound) => continue,
                             Err(Error::EndOfFile) => return Err(Error::NotFound),
@@ -905,6 +949,7 @@ impl FatVolume {
                             FatType::Fat32,
                             match_name,
                             block,
+                            usize::MAX,
                         ) {
                             Err(Error::NotFound) => continue,
                             Err(Error::EndOfFile) => return Err(Error::NotFound),
@@ -929,13 +974,18 @@ impl FatVolume {
         fat_type: FatType,
         match_name: &ShortFileName,
         block_idx: BlockIdx,
+        slots: usize,
     ) -> Result<DirEntry, Error<D::Error>>
     where
         D: BlockDevice,
     {
         trace!("Reading directory");
         let block = block_cache.read(block_idx).map_err(Error::DeviceError)?;
-        for (i, dir_entry_bytes) in block.chunks_exact(OnDiskDirEntry::LEN).enumerate() {
+        for (i, dir_entry_bytes) in block
+            .chunks_exact(OnDiskDirEntry::LEN)
+            .enumerate()
+            .take(slots)
+        {
             let dir_entry = OnDiskDirEntry::new(dir_entry_bytes);
             if dir_entry.is_end() {
                 // Nothing behind the end marker belongs to the directory
@@ -984,7 +1034,14 @@ impl FatVolume {
                 while let Some(cluster) = current_cluster {
                     // Scan the cluster / root dir a block at a time
                     for block_idx in first_dir_block_num.range(dir_size) {
-                        match self.delete_entry_in_block(block_cache, match_name, block_idx) {
+                        let slots = Self::fat16_slots_in_block(
+                            fat16_info.root_entries_count,
+                            dir_info.cluster,
+                            first_dir_block_num,
+                            block_idx,
+                        );
+                        match self.delete_entry_in_block(block_cache, match_name, block_idx, slots)
+                        {
                             Err(Error::NotFound) => {
                                 // Carry on
                             }
@@ -1029,7 +1086,12 @@ impl FatVolume {
                     for block_idx in
                         start_block_idx.range(BlockCount(u32::from(self.blocks_per_cluster)))
                     {
-                        match self.delete_entry_in_block(block_cache, match_name, block_idx) {
+                        match self.delete_entry_in_block(
+                            block_cache,
+                            match_name,
+                            block_idx,
+                            usize::MAX,
+                        ) {
                             Err(Error::NotFound) => {
                                 // Carry on
                                 continue;
@@ -1069,6 +1131,7 @@ impl FatVolume {
         block_cache: &mut BlockCache<D>,
         match_name: &ShortFileName,
         block_idx: BlockIdx,
+        slots: usize,
     ) -> Result<(), Error<D::Error>>
     where
         D: BlockDevice,
@@ -1077,7 +1140,11 @@ impl FatVolume {
         let block = block_cache
             .read_mut(block_idx)
             .map_err(Error::DeviceError)?;
-        for (i, dir_entry_bytes) in block.chunks_exact_mut(OnDiskDirEntry::LEN).enumerate() {
+        for (i, dir_entry_bytes) in block
+            .chunks_exact_mut(OnDiskDirEntry::LEN)
+            .enumerate()
+            .take(slots)
+        {
             let dir_entry = OnDiskDirEntry::new(dir_entry_bytes);
             if dir_entry.is_end() {
                 // Nothing behind the end marker belongs to the directory
@@ -1123,8 +1190,7 @@ impl FatVolume {
                     let block = block_cache
                         .read(this_fat_block_num)
                         .map_err(Error::DeviceError)?;
-                    while this_fat_ent_offset <= Block::LEN - 2
-                        && current_cluster.0 < end_cluster.0
+                    while this_fat_ent_offset <= Block::LEN - 2 && current_cluster.0 < end_cluster.0
                     {
                         let fat_entry = LittleEndian::read_u16(
                             &block[this_fat_ent_offset..=this_fat_ent_offset + 1],
@@ -1155,8 +1221,7 @@ impl FatVolume {
                     let block = block_cache
                         .read(this_fat_block_num)
                         .map_err(Error::DeviceError)?;
-                    while this_fat_ent_offset <= Block::LEN - 4
-                        && current_cluster.0 < end_cluster.0
+                    while this_fat_ent_offset <= Block::LEN - 4 && current_cluster.0 < end_cluster.0
                     {
                         let fat_entry = LittleEndian::read_u32(
                             &block[this_fat_ent_offset..=this_fat_ent_offset + 3],
